@@ -444,17 +444,6 @@ def nonempty(ctx, cfg, fs):
             ms = sorted({st['rv']['variant'] for i, k, st in sm.stmts() if st['k'] == 'assign' and st['rv']['k'] == 'agg' and st['rv'].get('adt') == 'error::Message'})
             ok = 'Missing' not in ms
             ctx.ob('N.non-empty', 'render:Missing', ok, 'the empty Missing arm is dead: summarize_missing builds only %s' % ms, where=b.where(tb), cfg=cfg)
-            # .. and the replacement is unconditional: in the switch(es) on Message before Doc::default() every way from the Missing edge to
-            # Doc::default() passes the call of summarize_missing (a guard on that arm lets Missing through to the arm that writes nothing)
-            smc = {c.bb for c in b.calls() if c.is_(r'^error::summarize_missing$')}
-            pre = [s for s in sws if s is not sw and 'Missing' in s.edges and b.reaches(s.b, [dd[0].bb]) and not b.dominates(dd[0].bb, s.b)]
-            if not smc or not pre:
-                raise Broken('Message::render: expected a switch on Message before Doc::default() whose Missing arm calls summarize_missing')
-            for s in pre:
-                leak = dd[0].bb in reachable_edges(b, s.edges['Missing'], avoid=smc)
-                ctx.ob('N.non-empty', 'render:Missing:always-summarized', not leak,
-                       'the Missing arm of the first switch %s' % ('reaches summarize_missing on every path' if not leak else 'can reach Doc::default() without calling summarize_missing: Missing then arrives at the arm that writes nothing'),
-                       where=b.where(s.edges['Missing']), cfg=cfg)
             continue
         ctx.ob('N.non-empty', 'render:%s' % v, not silent,
                'arm %s %s' % (v, 'writes to the document on every path to Stderr' if not silent else 'can reach ParseFailure::Stderr without writing any text'),
